@@ -330,6 +330,15 @@ class ParserInterface(Nodes):  # pragma: no cover
         pass
 
 
+class _CGenerator(c_generator.CGenerator):
+    """C generator that also accepts a list of statements where pycparser
+    put one in a single-statement slot (_Static_assert as a loop/branch body).
+    """
+
+    def visit_list(self, n):
+        return ''.join(self._generate_stmt(x) for x in n)
+
+
 class PyCParser(ParserInterface):
     """Implementation of the parser interface using pycparser."""
 
@@ -397,7 +406,7 @@ class PyCParser(ParserInterface):
 
     def to_c(self, node: Any, compact: bool = False) -> str:
         """Translate node back to C code."""
-        generator = c_generator.CGenerator()
+        generator = _CGenerator()
         comm = generator.visit(node)
         if compact:
             comm = re.sub(r"[\n\t\s]+", " ", comm).strip()
